@@ -194,6 +194,8 @@ class C10(Machine):
             mix = list(new)
             if model.members:
                 mix.insert(0, self.taxa[model.members[st["i"] % len(model.members)]])
+            if new and st["first"]:
+                mix.append(new[st["j"] % len(new)])      # the same new taxon listed twice in one call: admitted once
             if not model.mutable and new:
                 self._expect_raise(rec, op, (dperror.ImmutableTaxonNamespaceError,), lambda: ns.add_taxa(mix))
                 return
